@@ -20,7 +20,6 @@ from hypothesis import strategies as st
 
 import dns_gen as G
 import ref_dns as R
-from runner import HarnessError
 
 PID = "C27"
 LEVEL = "exploration"
@@ -364,6 +363,12 @@ def check_case(case, ctx):
     check_obs(obs, "aligned")
 
     # ---- per-op accounting (aligned run: one op per delivery)
+    if not all(_dec_ok(m) for m in obs.to_client + obs.to_server):
+        # already reported (reply-undecodable) or reported here; the accounting below needs decodable messages
+        for m in obs.to_server:
+            if not _dec_ok(m):
+                ctx.fail("forwarded-query-undecodable", "message sent upstream is not decodable: %s" % m.hex()[:200])
+        per_event = []
     after_zero = False
     dead = False
     server_up = False
